@@ -100,9 +100,9 @@ Theorem painting_discipline : forall q d s names, table_clean d -> (forall n, d 
 Proof. exact painting_discipline_lemma. Qed.
 Print Assumptions painting_discipline.
 
-(* ... hence pop_macro_call never finds an empty stack and a T_EOA always finds its call *)
+(* ... hence pop_macro_call never finds an empty stack, a T_EOA always finds its call and its T_BOA *)
 Theorem no_stack_underflow : forall q d s w, table_clean d -> reach q d s -> step q d s = Bad w ->
-  w <> 2 /\ w <> 4 /\ w <> 5 /\ w <> 12.
+  w <> 2 /\ w <> 3 /\ w <> 4 /\ w <> 5 /\ w <> 12.
 Proof. exact no_stack_underflow_lemma. Qed.
 Print Assumptions no_stack_underflow.
 
